@@ -87,6 +87,25 @@ func checkC13(r *Run) {
 			break
 		}
 	}
+	// a struct package whose import path ends in "time", with a struct-package type called Duration that is
+	// NOT the configured duration type (a plain integer cast): `…uptime.Duration` is no time.Duration
+	for _, mk := range []func() *descgen.Entry{descgen.K1, descgen.K3} {
+		mk := mk
+		add(func() *descgen.Entry {
+			e := mk()
+			e.Cfg.DurationCustomType = "BillingDuration"
+			return descgen.Rename(e, e.Name+"u")
+		}, false)
+		a, b := cases[len(cases)-2], cases[len(cases)-1]
+		b.DottedPath, b.HyphenPath, b.DigitPath, b.SameName, b.ForeignGoPackage, b.FullPathOverride, b.MixedCasePkg, b.PrefixTarget = false, false, false, false, false, false, false, false
+		a.MixedCasePkg = false
+		b.TimeSuffixPath = true
+		b.Tags = append(b.Tags, "struct-import-path-ends-in-time")
+		pairs[len(pairs)-1].Label = "separate-package/override=false/import-path-ends-in-time"
+		if !r.thorough() {
+			break
+		}
+	}
 	// the isolated shapes (map<string,bytes>, lists and maps of empty messages, by-value duration branches ...)
 	for i, e := range descgen.Exotic() {
 		if r.thorough() || i%2 == 0 {
@@ -110,9 +129,9 @@ func checkC13(r *Run) {
 func checkC15(r *Run) {
 	type mk = func() *descgen.Entry
 	var makers []mk
-	cur := []mk{descgen.K1, descgen.K3, descgen.K5, func() *descgen.Entry { return descgen.K6(0) }, func() *descgen.Entry { return descgen.K6(3) }, func() *descgen.Entry { return descgen.K6(5) }, descgen.K7, descgen.K9, descgen.K8, func() *descgen.Entry { return descgen.K10(false) }, descgen.K2, descgen.K4}
+	cur := []mk{descgen.K16, descgen.K1, descgen.K3, descgen.K5, func() *descgen.Entry { return descgen.K6(0) }, func() *descgen.Entry { return descgen.K6(3) }, func() *descgen.Entry { return descgen.K6(5) }, descgen.K7, descgen.K9, descgen.K8, func() *descgen.Entry { return descgen.K10(false) }, descgen.K2, descgen.K4}
 	for i, m := range cur {
-		if r.thorough() || i < 9 {
+		if r.thorough() || i < 10 {
 			makers = append(makers, m)
 		}
 	}
